@@ -78,8 +78,14 @@ Qed.
 Definition sane_write (h : hdrs) (st : Z) (body : str) : Prop :=
   (content_length h = 0 -> body = []) /\ (body_allowed st = false -> body = []).
 
-Lemma zfirstn_nil {A} n : @zfirstn A n [] = [].
-Proof. unfold zfirstn. apply firstn_nil. Qed.
+Lemma zfirstn_nil {A} n : @ztake A n [] = [].
+Proof. unfold ztake, zfirstn. rewrite firstn_nil. destruct (zlen [] <=? n); reflexivity. Qed.
+
+Lemma ztake_firstn {A} n (l : list A) : ztake n l = zfirstn n l.
+Proof.
+  unfold ztake, zfirstn, zlen. destruct (Z.leb_spec (Z.of_nat (length l)) n); [|reflexivity].
+  symmetry. apply firstn_all2. lia.
+Qed.
 
 Lemma sent_agree m h st body :
   sane_write h st body ->
